@@ -714,7 +714,7 @@ Proof.
   exact (tokens_load v toks se _ Hwf Hm Hf).
 Qed.
 
-(* ================= texts: the relation is inhabited as intended; the known finding at the text level ================= *)
+(* ================= texts: the relation is inhabited as intended; the former finding (TAB after ':') at the text level ================= *)
 (* the text  [1 ,<LF>"a\né"]  (17 code points) is a serialisation of [1, "a<LF>é"] and loads as that value *)
 Lemma text_example :
   json_doc_text (JArr [JNum [49]%N; JStr [97;10;233]%N])
@@ -742,10 +742,10 @@ Proof.
   - apply jt_num. reflexivity.
 Qed.
 
-(* ... of nesting depth 1, in the colon-tab class, and the whole model pipeline rejects it *)
-Theorem text_refuted :
-  exists v s, json_doc_text v s /\ (json_depth v < 256)%nat /\ colon_tab Tout s = true /\ run_load s = LErr.
-Proof.
-  exists (JObj [([97]%N, JNum [49]%N)]), [123;34;97;34;58;9;49;125]%N.
-  split; [exact tab_text|]. split; [cbn; lia|]. split; vm_compute; reflexivity.
-Qed.
+(* ... of nesting depth 1; it was the witness of the finding colon-tab-scalar (the tab check of fetch_value fired
+   in flow context too).  Since /repo b87c12b the check only runs at flow level 0 and the whole model pipeline
+   loads the text with its JSON meaning. *)
+Lemma tab_text_loads :
+  (json_depth (JObj [([97]%N, JNum [49]%N)]) < 256)%nat /\
+  run_load [123;34;97;34;58;9;49;125]%N = LDocs [yaml_of_json (JObj [([97]%N, JNum [49]%N)])].
+Proof. split; [cbn; lia|vm_compute; reflexivity]. Qed.
